@@ -374,6 +374,7 @@ func driveC04(t *testing.T, out *vEmitter) {
 // ---- C05 ----
 func driveC05(t *testing.T, out *vEmitter) {
 	vKeys()
+	vC05Legacy(t, out)
 	type behaviour struct {
 		label string
 		nonce func(this, other *vLogin, rawThis string) interface{} // nil = omit claim
@@ -404,11 +405,24 @@ func driveC05(t *testing.T, out *vEmitter) {
 					o.Providers[0].OIDCConfig.InsecureSkipNonce = skipNonce
 					o.Cookie.CSRFPerRequest = perReq
 				}})
-				for _, bh := range behaviours {
+				for bi, bh := range behaviours {
 					// two overlapping logins in one browser; complete the first (per-request) or the latest
 					b := e.newBrowser("https://app.example.com")
-					l1 := b.start("/one")
-					l2 := b.start("/two")
+					// every other login is started without any query (bare /oauth2/start)
+					rd1, rd2 := "/one", "/two"
+					if bi%2 == 1 {
+						rd1, rd2 = "", ""
+					}
+					l1 := b.start(rd1)
+					l2 := b.start(rd2)
+					for _, lg := range []*vLogin{l1, l2} {
+						for _, prm := range []string{"state", "nonce", "code_challenge", "code_challenge_method", "redirect_uri", "client_id"} {
+							if len(lg.Query[prm]) > 1 {
+								out.Violation("pkce-nonce/parameter-repeated", "the authorization request carries a parameter more than once (values of another login travel with this one)",
+									map[string]interface{}{"parameter": prm, "count": len(lg.Query[prm]), "method": method})
+							}
+						}
+					}
 					this, other := l1, l2
 					if !perReq {
 						this, other = l2, l1
@@ -938,4 +952,49 @@ func vC14GenericProvider(t *testing.T, out *vEmitter) {
 		}
 	}
 	setAccount(kinds[0])
+}
+
+
+// vC05Legacy: the code-challenge method given through the command-line / config-file options
+// (code-challenge-method and its deprecated alias force-code-challenge-method) reaches the authorization request.
+func vC05Legacy(t *testing.T, out *vEmitter) {
+	for _, c := range []struct{ ccm, force string }{{"", ""}, {"S256", ""}, {"plain", ""}, {"", "S256"}, {"", "plain"}, {"plain", "S256"}, {"S256", "plain"}} {
+		lo := options.NewLegacyOptions()
+		lp := &lo.LegacyProvider
+		lp.ProviderType = "oidc"
+		lp.ClientID = clientID
+		lp.ClientSecret = clientSecret
+		lp.OIDCIssuerURL = vIssuer
+		lp.SkipOIDCDiscovery = true
+		lp.OIDCJwksURL = vIssuer + "/jwks"
+		lp.LoginURL = vIssuer + "/authorize"
+		lp.RedeemURL = vIssuer + "/token"
+		lp.CodeChallengeMethod = c.ccm
+		lp.ForceCodeChallengeMethod = c.force
+		lo.LegacyUpstreams.Upstreams = []string{"static://200"}
+		conv, err := lo.ToOptions()
+		if err != nil {
+			t.Fatalf("legacy conversion: %v", err)
+		}
+		e := vTryNewEnv(t, vEnvCfg{mod: func(o *options.Options) {
+			o.Providers = conv.Providers
+		}})
+		if e == nil {
+			out.Stat("c05_legacy_rejected", 1)
+			continue
+		}
+		want := c.ccm
+		if want == "" {
+			want = c.force
+		}
+		b := e.newBrowser("https://app.example.com")
+		l := b.start("/x")
+		_, _, verifier := vCsrfRaw(e.opts.Cookie.Secret, vCsrfCookieOf(e, l.Start).Value)
+		out.Obs("legacy-pkce", true, vL(vS(c.ccm), vS(c.force), vS(l.Method), vBool(l.Challenge != "")))
+		out.Stat("c05_legacy_configs", 1)
+		if l.Method != want || (want != "") != (l.Challenge != "") || (want != "") != (verifier != "") {
+			out.Violation("pkce-nonce/challenge-missing", "the authorization request carries no code challenge although a method is configured",
+				map[string]interface{}{"code_challenge_method": c.ccm, "force_code_challenge_method": c.force, "sent_method": l.Method, "challenge_sent": l.Challenge != "", "verifier_stored": verifier != ""})
+		}
+	}
 }
